@@ -170,7 +170,7 @@ impl Prop for C11 {
         "exploration"
     }
     fn rule(&self) -> String {
-        "run = a finalized archive written by the library, whose layer plaintexts are obtained from the independent format model (decrypt / decompress by refmla); a layer reader stack is built exactly as `mlar info` builds it (header parsed, raw layer pinned after the header, then 0, 1 or 2 of the enabled layers) over the simulated source, and a seeded history of 30 operations (250 on the one scaled run in 40 whose plaintext spans 260..700 blocks or more than 65535 chunks) {seek from start / current / end to any target in [0, len] (biased to 0, len, len-k, chunk and block edges +-2), stream_position, read of 0/1/unit/unit+1/random bytes} is played against a std::io::Cursor over the same plaintext: identical positions, identical bytes, a read returns >= 1 byte unless asked for 0 or at the end. The 2 (thorough: 8) runs after the sweep stream a file of 2^32 + a few MiB bytes (period 251, so that content 2^31 or 2^32 apart differs; zeros on one run in four) through the compression layer (alone / over encryption, production constants) and play 40-step histories with targets and relative distances around 2^31, 2^32, block edges and both ends against a model that holds the first and last blocks (decoded by the format model) and the periodic content in between. The first 1800 runs sweep the content length 0..299 on s0 (all four layer sets) and s1 (E, CE) so that every residue of the plaintext length modulo CHUNK (and lengths below one tag, exact multiples) and modulo BLOCK occurs. distinct_nontrivial = distinct (variant, layers, depth, length class vs CHUNK, vs BLOCK, op kinds seen) signatures.".into()
+        "run = a finalized archive written by the library, whose layer plaintexts are obtained from the independent format model (decrypt / decompress by refmla); a layer reader stack is built exactly as `mlar info` builds it (header parsed, raw layer pinned after the header, then 0, 1 or 2 of the enabled layers) over the simulated source, and a seeded history of 30 operations (250 on the one scaled run in 40 whose plaintext spans 260..700 blocks or more than 65535 chunks) {seek from start / current / end to any target in [0, len] (biased to 0, len, len-k, chunk and block edges +-2), stream_position, read of 0/1/unit/unit+1/random bytes} is played against a std::io::Cursor over the same plaintext: identical positions, identical bytes, a read returns >= 1 byte unless asked for 0 or at the end. The 2 (thorough: 8) runs after the sweep stream a file of 2^32 + a few MiB bytes (period 251, so that content 2^31 or 2^32 apart differs; zeros on one run in four) through the compression layer (alone / over encryption, production constants) and play 40-step histories with targets and relative distances around 2^31, 2^32, block edges and both ends against a model that holds the first and last blocks (decoded by the format model) and the periodic content in between. The first 1800 runs sweep the content length 0..299 on s0 (all four layer sets) and s1 (E, CE) so that every residue of the plaintext length modulo CHUNK (and lengths below one tag, exact multiples) and modulo BLOCK occurs. distinct_nontrivial = distinct (variant, layers, depth, length class vs CHUNK, vs BLOCK, op kinds seen) signatures. One run in three reads through a source that returns short reads (1 byte per call, or 1..m bytes for m in 2..4096); one in twelve through a source that answers `Interrupted` to one call in 3..12 (bursts included): the driver makes the refused call again - a read as it was, a seek as an absolute seek to the same target - and the comparison with the cursor is unchanged.".into()
     }
     fn assumptions(&self) -> Vec<String> {
         vec!["seek targets are confined to [0, len] as the property states; a read may return fewer bytes than asked".into()]
@@ -244,6 +244,14 @@ impl Prop for C11 {
         let nl = case.cfg.enc() as usize + case.cfg.comp() as usize;
         case.params.insert("depth".into(), rng.range(0, nl as u64) as i64);
         case.params.insert("hist_seed".into(), (rng.u64() >> 1) as i64);
+        // one run in three: the underlying source returns SHORT reads (1 byte at a time, or 1..max bytes per call)
+        match rng.below(6) {
+            0 => case.params.insert("src_short".into(), 1),
+            1 => case.params.insert("src_short".into(), *rng.pick(&[2i64, 3, 7, 15, 16, 17, 100, 4096])),
+            // ... or reports `Interrupted` now and then (the driver makes the call again)
+            2 if rng.chance(1, 2) => case.params.insert("src_intr".into(), rng.range(3, 12) as i64),
+            _ => None,
+        };
         case
     }
     fn shrink(&self, case: &Case) -> Vec<Case> {
@@ -355,8 +363,19 @@ impl Prop for C11 {
         } else {
             gen_hist(&mut Rng::new(case.param("hist_seed", 1) as u64), len, case.param("hist_len", 30) as usize, unit)
         };
-        let rcfg = ReadCfg::for_cfg(&case.cfg);
+        let mut rcfg = ReadCfg::for_cfg(&case.cfg);
+        match case.param("src_short", 0) {
+            0 => {}
+            1 => rcfg.sched = Sched::One,
+            m => rcfg.sched = Sched::Rand { seed: case.param("hist_seed", 1) as u64 ^ 0x5eed, max: m as u64 },
+        }
+        let intr = case.param("src_intr", 0);
+        if intr > 0 {
+            rcfg.sched = Sched::Intr { seed: case.param("hist_seed", 1) as u64 ^ 0x1e77, max: 1 << 20, intr_den: intr as u64 };
+            crate::seams::set_source_interrupts(true);
+        }
         let out = s.layers(Rc::new(image.clone()), depth, &rcfg, len, &lops);
+        crate::seams::set_source_interrupts(false);
         let cls = top.to_string();
         ctx.eval();
         if let Err(e) = &out.build {
